@@ -219,6 +219,35 @@ def generate(repo):
                                     has_nan_guard=has_nan_guard, guard_needs=guard_needs, bs_user_odes=bs_user_odes)
 
 
+def entry_points(repo):
+    """public functions / attributes that reach the integrate() state machine, extracted from the sources:
+    C: DLLEXPORT declarations of rebound.h (integrate, step, steps, stop, the halting resolver), the non-static routines of rebound.c the
+    loop is made of (reb_check_exit, reb_run_heartbeat) and the global reb_sigint; Python: the methods of Simulation that call one of these,
+    and the struct members the contract reads (exact_finish_time, exit_max_distance, exit_min_distance)."""
+    hdr = _strip(open(os.path.join(repo, "src", "rebound.h")).read())
+    rc = _strip(open(os.path.join(repo, "src", "rebound.c")).read())
+    cnames = set(re.findall(r"DLLEXPORT[^;(]*?\b(reb_simulation_(?:integrate|steps?|stop)|reb_collision_resolve_halt)\s*\(", hdr))
+    for nm in ("reb_check_exit", "reb_run_heartbeat"):
+        if re.search(r"^(?!static)\w[\w\s\*]*\b%s\s*\(" % nm, rc, flags=re.M):
+            cnames.add(nm)
+    if re.search(r"extern\s+volatile\s+sig_atomic_t\s+reb_sigint", hdr):
+        cnames.add("reb_sigint")
+    src = open(os.path.join(repo, "rebound", "simulation.py")).read()
+    tree = ast.parse(src)
+    pynames = set()
+    for node in ast.walk(tree):
+        if isinstance(node, ast.ClassDef) and node.name == "Simulation":
+            for b in node.body:
+                if isinstance(b, ast.FunctionDef):
+                    for n in ast.walk(b):
+                        if isinstance(n, ast.Attribute) and n.attr in cnames and isinstance(n.value, ast.Name) and n.value.id == "clibrebound":
+                            pynames.add("Simulation." + b.name)
+    for fld in ("exact_finish_time", "exit_max_distance", "exit_min_distance"):
+        if re.search(r'\("%s"\s*,' % fld, src):
+            pynames.add("Simulation." + fld)
+    return sorted(cnames), sorted(pynames)
+
+
 if __name__ == "__main__":
     import sys
     text, info = generate(sys.argv[1] if len(sys.argv) > 1 else "/repo")
